@@ -396,7 +396,15 @@ class SeqBuilder:
         k = n["k"]
         f = self.f
         if k == "CompoundStmt":
-            for c in n.get("c", []):
+            cs = n.get("c", [])
+            for idx, c in enumerate(cs):
+                if c["k"] == "IfStmt" and c.get("else") is None and self.terminates(c.get("then")) and idx + 1 < len(cs) and \
+                        any(x["k"] in ("CallExpr", "CXXMemberCallExpr", "CXXConstructExpr", "CXXNewExpr") for x in walk(c["then"])):
+                    # `if (c) { ...; return; } rest`  ==  `if (c) { ... } else { rest }`
+                    syn = dict(c)
+                    syn["else"] = {"k": "CompoundStmt", "id": -c["id"], "l": cs[idx + 1].get("l"), "c": cs[idx + 1:]}
+                    self.stmt(syn, items)
+                    return
                 self.stmt(c, items)
             return
         if k == "DeclStmt":
@@ -437,6 +445,7 @@ class SeqBuilder:
             e_term = self.terminates(n.get("else")) if n.get("else") is not None else False
             if t_term and not t_items:
                 self.env = env_e           # guard: if (bad) return ...;
+                items.extend(e_items)
                 return
             if e_term and not e_items:
                 self.env = env_t
@@ -877,6 +886,25 @@ class Mirror:
                                 pos, wv[-1], rt[-1]))
                             return
             elif wi.kind == "nested":
+                if not same_family(self.db, wi.cls, ri.cls):
+                    # a local helper on one side (save_child(p, out)) against the inline form on the other: look inside it
+                    done = False
+                    for side, it in (("w", wi), ("r", ri)):
+                        if str(it.cls).startswith("fn:"):
+                            sp = self.splice(it, side)
+                            if sp is not None and not getattr(it, "spliced", False):
+                                for x in sp:
+                                    x.spliced = True
+                                if side == "w":
+                                    ws = ws[:i] + sp + ws[i + 1:]
+                                else:
+                                    rs = rs[:j] + sp + rs[j + 1:]
+                                self.matches.pop()
+                                n -= 1
+                                done = True
+                                break
+                    if done:
+                        continue
                 self.nested.append((wi.cls, ri.cls))
                 if not same_family(self.db, wi.cls, ri.cls):
                     self.viol(pos + ":class", wi, ri, "image element %s: writer saves a %s where reader loads a %s" % (pos, wi.cls, ri.cls))
@@ -1177,6 +1205,13 @@ def r_resave(db, rep):
             others = [(p, wr) for p, wr in field_assigns.get(F, []) if not any(x is ri.node or strip(x) is ri.node for x in walk(wr))]
             # ignore plain NULL initialisation before the read
             others = [(p, wr) for p, wr in others if not (wr.get("rhs") is not None and const_value(wr["rhs"]) == 0)]
+            if tgt_field is None and tgt is not None and len(tgt) == 2 and tgt[0] == "local":
+                # element read into a local that is then copied into the field:  T x = load(in); obj->F = x;
+                copies = [(p, wr) for p, wr in others if wr.get("op") == "=" and wr.get("rhs") is not None and
+                          strip(wr["rhs"])["k"] == "DeclRefExpr" and access_path(r, wr["rhs"]) == tgt and single_def_init(r, tgt[1]) is not None]
+                if copies:
+                    tgt_field = F
+                    others = [(p, wr) for p, wr in others if all(wr is not c[1] for c in copies)]
             if tgt_field == F and not others:
                 continue
             if tgt_field == F and getattr(ri, "raw", False):
@@ -1358,3 +1393,148 @@ def r_narrow(db, rep):
                 rep.viol("%s#narrow-%s" % (f.qn, x["n"]), f.nloc(c),
                          "%s writes member %s of type %s as %s: values above %d-bit range are truncated in the image and the reloaded object "
                          "differs from the saved one" % (f.qn, x["n"], st["s"], pt["s"], pt.get("bits") or 0), f.qn)
+
+
+def _range_writes(db, c, path, cb):
+    """Writes to the array `path` in constructor c as index ranges [(lo sym, hi sym, node)], or None when some write is not a
+    recognisable whole-range write (then coverage is undecided)."""
+    out = []
+    for lv, w in written_lvalues(c):
+        s = strip(lv)
+        if s["k"] != "ArraySubscriptExpr" or access_path(c, s["base"]) != path:
+            continue
+        iv = access_path(c, s["idx"])
+        loop = next((a for a in c.ancestors(w) if a["k"] in ("ForStmt", "WhileStmt", "DoStmt")), None)
+        if loop is None:
+            cv = const_value(s["idx"])
+            if cv is None:
+                return None
+            out.append((C(cv), C(cv + 1), w))
+            continue
+        if loop["k"] != "ForStmt" or iv is None or loop.get("cond") is None or loop.get("init") is None:
+            return None
+        cond = strip(loop["cond"])
+        if cond["k"] != "BinaryOperator" or cond["op"] not in ("<", "<=") or access_path(c, cond["lhs"]) != iv:
+            return None
+        ini = loop["init"]
+        lo = None
+        if ini["k"] == "DeclStmt" and len(ini["decls"]) == 1 and ("local", ini["decls"][0].get("d")) == iv and ini["decls"][0].get("init") is not None:
+            lo = ini["decls"][0]["init"]
+        elif is_assignment(ini) and ini.get("op") == "=" and access_path(c, ini["lhs"]) == iv:
+            lo = ini["rhs"]
+        inc = strip(loop.get("inc")) if loop.get("inc") is not None else None
+        if lo is None or inc is None or not (inc["k"] == "UnaryOperator" and inc["op"] == "++" and access_path(c, inc["sub"]) == iv):
+            return None
+        # the store must happen on every iteration (not under a condition) and the loop variable must not be written in the body
+        if any(a["k"] in ("IfStmt", "SwitchStmt", "ConditionalOperator") for a in c.ancestors(w) if a is not loop and any(x is a for x in walk(loop["body"]))):
+            return None
+        if any(access_path(c, lv2) == iv and any(x is w2 for x in walk(loop["body"])) for lv2, w2 in written_lvalues(c)):
+            return None
+        hi = cb.sym(cond["rhs"])
+        if cond["op"] == "<=":
+            hi = mk_op("+", hi, C(1))
+        out.append((cb.sym(lo), hi, w))
+    for n in c.calls():
+        nm = callee_name(n)
+        args = n.get("args", [])
+        if nm in ("memcpy", "memmove", "memset") and len(args) == 3 and resolved_path(c, args[0]) == path:
+            out.append((C(0), ("bytes", cb.sym(args[2])), n))
+        elif nm in ("fill_n",) and len(args) == 3 and resolved_path(c, args[0]) == path:
+            out.append((C(0), cb.sym(args[1]), n))
+        elif nm in ("fill", "copy") and len(args) >= 2 and (resolved_path(c, args[0]) == path or resolved_path(c, args[-1 if nm == "copy" else 0]) == path):
+            return None        # iterator-pair forms: extent is a pointer difference, not followed
+        elif any(resolved_path(c, a) == path for a in args) and nm not in ("memcpy", "memmove", "memset", "fill_n") and \
+                not n.get("fconst") and n["k"] in ("CallExpr", "CXXMemberCallExpr") and not (n.get("ext") and nm in ("saveValue",)):
+            g = db.funcs.get(n.get("f"))
+            if g is None or g.body is None:
+                return None    # handed to code that may fill it
+            ai = next(i for i, a in enumerate(args) if resolved_path(c, a) == path)
+            if ai < len(g.params) and g.raw.get("pw", [False] * (ai + 1))[ai] if isinstance(g.raw.get("pw"), list) and ai < len(g.raw.get("pw")) else True:
+                return None
+    return out
+
+
+@rule("R-INITEXTENT", 15, "an array that a building constructor allocates uninitialised (`new T[n]`) and that save writes out is written over "
+                         "its whole extent when all the constructor's writes to it are whole-range writes (consecutive loops, memcpy/memset): "
+                         "an uncovered tail reaches the image as indeterminate bytes")
+def r_initextent(db, rep):
+    import itertools
+    E = None
+    pairs = [(w, r) for w, r in find_pairs(db) if not is_dispatcher(db, r)]
+    cone = mirror_cone(db, pairs)
+    done = set()
+    undecided = 0
+    for w, r in pairs:
+        if not w.rec or w.rec not in cone or w.id in done:
+            continue
+        done.add(w.id)
+        wb = SeqBuilder(db, w, "w", nosubst=True)
+        items = wb.run()
+        saved = set()
+        for it in flat_items(items):
+            if it.kind == "bytes" and not it.scalar and getattr(it, "ptr", None) is not None:
+                p = access_path(w, it.ptr)
+                if p is not None and len(p) == 2 and p[0] == "this":
+                    saved.add(p)
+        if not saved:
+            continue
+        for c in [c for c in db.methods_of(w.rec) if c.is_ctor and stream_param(c, STREAM_IN) is None and c.body]:
+            cb = SeqBuilder(db, c, "c", nosubst=True)
+            cb.run()
+            for ap, node, ext in cb.allocs:
+                if ap not in saved or node.get("init") is not None:
+                    continue
+                at = c.types[node["alloct"]]
+                if at["kind"] not in ("int", "uint", "bool"):
+                    continue
+                # writes elsewhere (methods the constructor calls that store into the field): undecided
+                other = False
+                for fid in db.closure([c]):
+                    g = db.funcs[fid]
+                    if g.id == c.id or not g.body:
+                        continue
+                    for lv, w2 in written_lvalues(g):
+                        s2 = strip(lv)
+                        if s2["k"] == "ArraySubscriptExpr":
+                            bp = access_path(g, s2["base"])
+                            if bp is not None and bp[-1] == ap[1]:
+                                other = True
+                rw = None if other else _range_writes(db, c, ap, cb)
+                rep.visit(c)
+                rep.inst(c.nloc(node), "%s allocates %s::%s (%s elements); %s" % (
+                    c.qn, w.rec, ap[1], canon(ext), "writes not all whole-range: undecided" if rw is None else "%d whole-range write(s)" % len(rw)))
+                if rw is None:
+                    undecided += 1
+                    continue
+                rep.ob()
+                esz = max(at["bits"] // 8, 1)
+                rng = []
+                for lo, hi, n in rw:
+                    if isinstance(hi, tuple) and hi and hi[0] == "bytes":
+                        hi = mk_op("/", hi[1], C(esz))
+                    rng.append((lo, hi, n))
+                syms = set(symx.atoms(ext))
+                for lo, hi, n in rng:
+                    syms |= symx.atoms(lo) | symx.atoms(hi)
+                if any(a[0] in ("unk", "local") for a in syms):
+                    undecided += 1
+                    continue
+                syms = sorted(syms, key=repr)
+                grid = symx.GRID if len(syms) <= 2 else [0, 1, 2, 7, 31, 32, 33, 64, 100]
+                for vals in itertools.islice(itertools.product(grid, repeat=len(syms)), 6000):
+                    val = dict(zip(syms, vals))
+                    ve = symx.evaluate(ext, val)
+                    iv = [(symx.evaluate(lo, val), symx.evaluate(hi, val)) for lo, hi, n in rng]
+                    if ve is None or any(a is None or b is None for a, b in iv) or ve <= 0 or ve > 10 ** 7:
+                        continue
+                    covered = 0
+                    for a, b in sorted(iv):
+                        if a <= covered < b:
+                            covered = b
+                    if covered < ve:
+                        rep.viol("%s#%s-tail-uninitialised" % (c.qn, ap[1]), c.nloc(node),
+                                 "%s allocates %s::%s with %s elements but its writes cover only the first %d of %d (e.g. at %s): the rest is "
+                                 "indeterminate, and %s writes the whole array to the image" % (
+                                     c.qn, w.rec, ap[1], canon(ext), covered, ve, {canon(k): v for k, v in val.items()}, w.qn), c.qn)
+                        break
+    rep.notes.append("%d allocations whose writes are not all whole-range writes (coverage undecided)" % undecided)
